@@ -4,7 +4,7 @@
                   tokens of the alphabet below, rendered with every separator style; the other
                   output is every sequence of at most 1 token.
    Mode "merge":  package lists of length <= 2, every output a sequence of <= MaxToks tokens,
-                  every failure placement.
+                  every failure placement and kind (exit status, death by signal, undecodable output).
    Mode "dump":   writes the "stream" universe with the implementation model's prediction to
                   IOEnv.PKG_OUT for the replay on the real flags_from_pkgconfig. *)
 EXTENDS PkgConfig, SequencesExt, Json, IOUtils
@@ -20,16 +20,16 @@ Styles == {"plain", "padded", "newlines"}
 Out(toks, style) == CASE style = "plain" -> Render(toks, <<32>>)
                       [] style = "padded" -> <<32, 9>> \o Render(toks, <<32, 32>>) \o <<32, 10>>
                       [] OTHER -> Render(toks, <<10>>) \o <<10>>
-StreamPkgs == {<<[cf |-> Out(a, sty), lb |-> Out(b, "plain"), fail |-> "none"]>> :
+StreamPkgs == {<<[cf |-> Out(a, sty), lb |-> Out(b, "plain"), fail |-> "none", how |-> "status"]>> :
                     a \in Seqs(TokAlpha, MaxToks), b \in Seqs(TokAlpha, 1), sty \in Styles}
               \cup
-              {<<[cf |-> Out(b, "plain"), lb |-> Out(a, sty), fail |-> "none"]>> :
+              {<<[cf |-> Out(b, "plain"), lb |-> Out(a, sty), fail |-> "none", how |-> "status"]>> :
                     a \in Seqs(TokAlpha, MaxToks), b \in Seqs(TokAlpha, 1), sty \in Styles}
 MergeAlpha == IF MergeFull THEN TokAlpha
-              ELSE {t \in TokAlpha : t \in {<<45, 73, 47, 97>>, <<45, 108, 102, 111, 111>>, <<45, 68, 88, 61, 49>>,
-                                           <<45, 112, 116, 104, 114, 101, 97, 100>>}}      \* -I/a -lfoo -DX=1 -pthread
-OnePkg(n) == {[cf |-> Out(a, "plain"), lb |-> Out(b, "plain"), fail |-> f] :
-                    a \in Seqs(MergeAlpha, n), b \in Seqs(MergeAlpha, n), f \in {"none", "cflags", "libs"}}
+              ELSE {t \in TokAlpha : t \in {<<45, 73, 47, 97>>, <<45, 108, 102, 111, 111>>}}      \* -I/a -lfoo
+Hows(f) == IF f = "none" THEN {"status"} ELSE {"status", "signal", "undecodable"}
+OnePkg(n) == UNION {{[cf |-> Out(a, "plain"), lb |-> Out(b, "plain"), fail |-> f, how |-> h] :
+                       a \in Seqs(MergeAlpha, n), b \in Seqs(MergeAlpha, n), h \in Hows(f)} : f \in {"none", "cflags", "libs"}}
 MergePkgs == {<<>>} \cup {<<p>> : p \in OnePkg(1)} \cup {<<p, q>> : p \in OnePkg(1), q \in OnePkg(1)}
 Universe == IF Mode = "merge" THEN MergePkgs ELSE StreamPkgs
 
@@ -51,8 +51,9 @@ AllClauses == Clause = "ok"
 
 \* replay universe: all single-package streams of the bound + all package lists over a 2-token alphabet
 Small == {t \in TokAlpha : t \in {<<45, 73, 47, 97>>, <<45, 108, 102, 111, 111>>}}
-SmallPkg == {[cf |-> Out(a, "plain"), lb |-> Out(b, "plain"), fail |-> f] :
-                    a \in Seqs(Small, 1), b \in Seqs(Small, 1), f \in {"none", "cflags", "libs"}}
+SmallPkg == UNION {{[cf |-> Out(a, "plain"), lb |-> Out(b, "plain"), fail |-> f, how |-> h] :
+                      a \in {<<>>, <<<<45, 73, 47, 97>>>>}, b \in {<<>>, <<<<45, 108, 102, 111, 111>>>>},
+                      h \in Hows(f) \ {"undecodable"}} : f \in {"none", "cflags", "libs"}}
 DumpPkgs == StreamPkgs \cup {<<>>} \cup {<<p>> : p \in SmallPkg} \cup {<<p, q>> : p \in SmallPkg, q \in SmallPkg}
 ASSUME Mode # "dump" \/
        LET us == SetToSeq(DumpPkgs) IN
